@@ -259,6 +259,7 @@ def main(argv=None):
         print(f"unknown tier {tier}")
         return 2
     seed = int(os.environ.get("VERIF_SEED", "1"))
+    os.environ["VF_TIER"] = tier
     t0 = time.time()
 
     import warnings
